@@ -281,7 +281,8 @@ def run_case(case):
 def enumerate_cases(tier, seed):
     from . import c04
 
-    cases = c04.enumerate_cases(tier, seed)
+    # real-structure windows carry input distortion: left to C03/C04
+    cases = [c for c in c04.enumerate_cases(tier, seed) if "window" not in c]
     strands = [(["DA", "DT", "DG", "DC"], "legacy"),
                (["RA", "RU", "RG", "RC"], "legacy"),
                (["DC", "DA"], "modern"), (["RG", "RU"], "modern")]
